@@ -216,6 +216,7 @@ func runC02(c *lib.Ctx) {
 	}
 
 	// --- model requests: whole text, one form, prefixes
+	c02Leave()
 	var reqs []string
 	type slot struct {
 		cs   *c02Case
@@ -279,9 +280,11 @@ func runC02(c *lib.Ctx) {
 	}
 
 	// --- (e) histories mixing cl:read with character level operations on one stream
+	c02Leave()
 	c02Histories(c, r, cases[nSweep:])
 
 	// --- (f) the secondary entry points, called through Lisp: read-each, read-push, read in a loop, load
+	c02Leave()
 	cpu0 := c02CPUSeconds()
 	c02LispFamily(c, r, cases[:nSweep], cases[nSweep:])
 	c02Leave()
